@@ -2,7 +2,6 @@
 /// the fn-pointer stored in `auto_skip_whitespace` (opaque)
 #[derive(Clone, Copy)]
 pub struct WsFn { pub id: u8 }
-pub struct ParseError { pub _x: u8 }
 
 pub open spec fn count_nl(s: Seq<char>) -> int
     decreases s.len(),
@@ -57,4 +56,43 @@ impl VxCharIndices {
 #[verifier::external_body]
 pub fn vx_char_utf16_len(c: char) -> (r: usize)
     ensures r as int == utf16_len(c),
+{ unimplemented!() }
+/// first character index >= i at which `u` occurs in `t`, or -1
+pub open spec fn find_first(t: Seq<char>, u: Seq<char>, i: int) -> int
+    decreases t.len() - i,
+{
+    if i < 0 || i > t.len() { -1 } else if u.is_prefix_of(t.skip(i)) { i } else if i == t.len() { -1 } else { find_first(t, u, i + 1) }
+}
+/// `s.find(pat)` for a string pattern (A2): byte offset of the first occurrence
+#[verifier::external_body]
+pub fn vx_find_str(s: &str, pat: &str) -> (r: Option<usize>)
+    ensures
+        find_first(s@, pat@, 0) < 0 ==> r.is_none(),
+        find_first(s@, pat@, 0) >= 0 ==> r.is_some() && r.unwrap() as int == boff(s@, find_first(s@, pat@, 0)),
+{ unimplemented!() }
+/// `s.is_char_boundary(i)` (A2)
+#[verifier::external_body]
+pub fn vx_is_char_boundary(s: &str, i: usize) -> (r: bool)
+    ensures r == is_boundary(s@, i as int),
+{ unimplemented!() }
+/// stand-in for `str::chars()` used as an iterator object (A2)
+pub struct VxChars { pub s: Ghost<Seq<char>>, pub pos: Ghost<int> }
+#[verifier::external_body]
+pub fn vx_chars_iter(s: &str) -> (r: VxChars)
+    ensures r.s@ == s@, r.pos@ == 0,
+{ unimplemented!() }
+impl VxChars {
+    #[verifier::external_body]
+    pub fn next(&mut self) -> (r: Option<char>)
+        requires 0 <= old(self).pos@ <= old(self).s@.len(),
+        ensures
+            final(self).s@ == old(self).s@,
+            old(self).pos@ < old(self).s@.len() ==> r == Some(old(self).s@[old(self).pos@]) && final(self).pos@ == old(self).pos@ + 1,
+            old(self).pos@ >= old(self).s@.len() ==> r.is_none() && final(self).pos@ == old(self).pos@,
+    { unimplemented!() }
+}
+/// `s.chars().next()` (A2)
+#[verifier::external_body]
+pub fn vx_first_char(s: &str) -> (r: Option<char>)
+    ensures r == (if s@.len() > 0 { Some(s@[0]) } else { None }),
 { unimplemented!() }
